@@ -805,6 +805,170 @@ def expand_short_circuit(body, facts, inline, guards, depth=0):
     return out
 
 
+# ---------------------------------------------------------------------------------------------
+# path-sensitive evaluation
+# ---------------------------------------------------------------------------------------------
+class PathExprBuilder(ExprBuilder):
+    """expressions along ONE control-flow path (a list of blocks): a local reads as its last definition on the path, so
+    values that are chosen together on a path (`parity` -> its tag and its vtable) stay together instead of becoming
+    independent phis"""
+
+    def __init__(self, body, facts, path, inline=False):
+        ExprBuilder.__init__(self, body, facts, inline=inline)
+        self.path = list(path)
+        self.pos = {}
+        for i, bb in enumerate(self.path):
+            self.pos.setdefault(bb, i)
+
+    def local(self, l, loc, depth=0):
+        key = (l, loc)
+        if key in self.memo:
+            return self.memo[key]
+        if depth > MAX_DEPTH:
+            return ("unknown", "_%d" % l)
+        self.memo[key] = ("unknown", "cycle_%d" % l)
+        bb, si = loc
+        here = self.pos.get(bb)
+        best = None
+        if here is not None:
+            for d in defs_of(self.body).get(l, []):
+                p = self.pos.get(d[0])
+                if p is None:
+                    continue
+                if p < here or (p == here and d[1] < si):
+                    if best is None or (p, d[1]) > (self.pos[best[0]], best[1]):
+                        best = d
+        if best is None:
+            e = ("param", l) if 1 <= l <= self.body.arg_count else ("unknown", "_%d" % l)
+        else:
+            e = self.def_expr(best, depth + 1)
+        self.memo[key] = e
+        return e
+
+
+def _known_on_path(body, pos, path, l, loc, depth=0):
+    """constant known for local l at loc on this path: an assigned constant, a copy of one, the discriminant of a locally
+    built variant, a constant field of a locally built tuple; None when not known"""
+    if depth > 8:
+        return None
+    bb, si = loc
+    here = pos.get(bb)
+    best = None
+    for d in defs_of(body).get(l, []):
+        p = pos.get(d[0])
+        if p is None:
+            continue
+        if p < here or (p == here and d[1] < si):
+            if best is None or (p, d[1]) > (pos[best[0]], best[1]):
+                best = d
+    if best is None or best[2] != "assign":
+        return None
+    rv = best[3]
+    at = (best[0], best[1])
+    if rv["k"] == "use":
+        op = rv["op"]
+        if op["k"] == "const":
+            return op.get("v")
+        if op["k"] in ("copy", "move"):
+            if not op["pl"]["p"]:
+                return _known_on_path(body, pos, path, op["pl"]["l"], at, depth + 1)
+            pr = op["pl"]["p"]
+            if len(pr) == 1 and isinstance(pr[0], dict) and "f" in pr[0]:
+                agg = _agg_on_path(body, pos, op["pl"]["l"], at, depth + 1)
+                if agg is not None and pr[0]["f"] < len(agg["ops"]) and agg["ops"][pr[0]["f"]]["k"] == "const":
+                    return agg["ops"][pr[0]["f"]].get("v")
+        return None
+    if rv["k"] == "discr" and not rv["pl"]["p"]:
+        agg = _agg_on_path(body, pos, rv["pl"]["l"], at, depth + 1)
+        if agg is not None and "dval" in agg:
+            return agg["dval"]
+    return None
+
+
+def _agg_on_path(body, pos, l, loc, depth=0):
+    if depth > 8:
+        return None
+    bb, si = loc
+    here = pos.get(bb)
+    best = None
+    for d in defs_of(body).get(l, []):
+        p = pos.get(d[0])
+        if p is None:
+            continue
+        if p < here or (p == here and d[1] < si):
+            if best is None or (p, d[1]) > (pos[best[0]], best[1]):
+                best = d
+    if best is None or best[2] != "assign":
+        return None
+    rv = best[3]
+    if rv["k"] == "agg":
+        return rv
+    if rv["k"] == "use" and rv["op"]["k"] in ("copy", "move") and not rv["op"]["pl"]["p"]:
+        return _agg_on_path(body, pos, rv["op"]["pl"]["l"], (best[0], best[1]), depth + 1)
+    return None
+
+
+def feasible_paths_to(body, target, limit=4000):
+    """acyclic entry -> `target` paths (block lists) that are not refuted by values known on the path itself: a switch on a
+    constant, on a copy of one, or on the discriminant / flag of a value built earlier on the same path takes its one edge"""
+    cfg = cfg_of(body)
+    can_reach = {target} | {b for b in range(cfg.n) if cfg.reaches(b, target)}
+    out = []
+
+    def rec(bb, path, pos):
+        if len(out) >= limit:
+            return
+        if bb == target:
+            out.append(list(path))
+            return
+        blk = body.blocks[bb]
+        t = blk["term"]
+        succ = list(cfg.succ[bb])
+        if t["k"] == "switch" and t["discr"]["k"] in ("copy", "move") and not t["discr"]["pl"]["p"]:
+            v = _known_on_path(body, pos, path, t["discr"]["pl"]["l"], (bb, len(blk["stmts"])))
+            if v is not None:
+                nxt = [d for val, d in t["targets"] if val == v]
+                succ = nxt[:1] if nxt else [t["otherwise"]]
+        for d in succ:
+            if d in pos or d not in can_reach or cfg.cleanup(d):
+                continue
+            pos[d] = len(path)
+            path.append(d)
+            rec(d, path, pos)
+            path.pop()
+            del pos[d]
+    if 0 in can_reach:
+        rec(0, [0], {0: 0})
+    return out
+
+
+def path_relations(body, facts, path):
+    """the relations established by the edges taken along `path`, with operands evaluated on the path"""
+    pe = PathExprBuilder(body, facts, path)
+    out = []
+    for (s_, d_) in zip(path, path[1:]):
+        t = body.blocks[s_]["term"]
+        loc = (s_, len(body.blocks[s_]["stmts"]))
+        if t["k"] == "switch":
+            c = pe.operand(t["discr"], loc)
+            vals = [v for v, _ in t["targets"]]
+            is_int = t["discr_ty"] not in ("bool",) and t["discr_ty"] in ("usize", "u8", "u16", "u32", "u64", "u128", "isize", "i8", "i16", "i32", "i64", "i128")
+            hit = [v for v, dst in t["targets"] if dst == d_]
+            if hit and d_ != t["otherwise"]:
+                out.append(normalize_cmp(c, ("eqint", hit[0]) if is_int else ("eq", hit[0])))
+            elif d_ == t["otherwise"]:
+                if t["discr_ty"] == "bool" and len(vals) == 1:
+                    out.append(normalize_cmp(c, ("eq", 1 - vals[0])))
+                elif is_int:
+                    out.append(normalize_cmp(c, ("neint", tuple(vals))))
+                else:
+                    out.append(normalize_cmp(c, ("notin", tuple(vals))))
+        elif t["k"] == "assert" and t.get("target") == d_:
+            c = pe.operand(t["cond"], loc)
+            out.append(normalize_cmp(c, ("eq", 1 if t["expected"] else 0)))
+    return out
+
+
 def _replace(e, fn):
     """bottom-up rewrite of an expression tree"""
     if not isinstance(e, tuple) or not e:
@@ -962,6 +1126,14 @@ def normalize_cmp(c, v):
     val = v[1]
     if isinstance(c, tuple) and c[0] == "un" and c[1] == "Not":
         return normalize_cmp(c[2], ("eq", 1 - val))
+    # `a == b` on pointer-like values (NonNull, raw pointers) is a call of their PartialEq impl, which compares addresses
+    if isinstance(c, tuple) and c[0] == "call" and len(c[2]) == 2 and c[1].rsplit("::", 1)[-1] in ("eq", "ne") \
+            and any(k in c[1] for k in ("ptr::non_null", "ptr::const_ptr", "ptr::mut_ptr", "NonNull<")):
+        a, b = c[2]
+        a = a[1] if isinstance(a, tuple) and a and a[0] == "ref" else ("deref", a)
+        b = b[1] if isinstance(b, tuple) and b and b[0] == "ref" else ("deref", b)
+        same = (val == 1) == (c[1].rsplit("::", 1)[-1] == "eq")
+        return ("eq" if same else "ne", a, b)
     if isinstance(c, tuple) and c[0] == "bin" and c[1] in ("Lt", "Le", "Gt", "Ge", "Eq", "Ne"):
         op, a, b = c[1], c[2], c[3]
         if val == 0:
@@ -981,7 +1153,100 @@ def normalize_cmp(c, v):
 
 
 def relations_at(body, bb, facts=None, inline=True):
-    return [normalize_cmp(c, v) for (_, _, c, v) in guards_at(body, bb, facts, inline)]
+    rels = [normalize_cmp(c, v) for (_, _, c, v) in guards_at(body, bb, facts, inline)]
+    return one_bit_twins(expand_classifiers(body, facts or body.facts, rels))
+
+
+def one_bit_twins(rels):
+    """(x & 1) != c  <=>  (x & 1) == 1 - c : add the equality twin so that rules looking for either spelling find it"""
+    out = list(rels)
+    for r in rels:
+        if r[0] != "ne" or len(r) < 3:
+            continue
+        for (x, c) in ((r[1], r[2]), (r[2], r[1])):
+            cx = canon(x) if isinstance(x, tuple) else x
+            cc = canon(c) if isinstance(c, tuple) else c
+            if isinstance(cx, tuple) and cx and cx[0] == "bin" and cx[1] == "BitAnd" and isinstance(cc, tuple) and cc and cc[0] == "const" and cc[1] in (0, 1) \
+                    and any(isinstance(y, tuple) and y and y[0] == "const" and y[1] == 1 for y in (cx[2], cx[3])):
+                t = ("eq", x, ("const", 1 - cc[1]))
+                if t not in out:
+                    out.append(t)
+    return out
+
+
+def classifier_alternatives(facts, cb, depth=0):
+    """for a crate-local function every result of which is a plain enum variant construction (`fn kind(&self) -> Kind`,
+    `Parity::of(ptr)`): [(variant path, dval, relations that hold where it is constructed, in the function's parameters)];
+    None for any other function"""
+    key = "classifier"
+    if key in cb._cache:
+        return cb._cache[key]
+    cb._cache[key] = None
+    if cb.kind not in ("fn", "assoc_fn") or len(cb.blocks) > 40 or depth > 1:
+        return None
+    out = []
+
+    def follow(bi, si, k, pay, d):
+        if k != "assign" or d > 4:
+            return False
+        if pay["k"] == "agg" and pay.get("ak") == "adt" and "dval" in pay and not pay["ops"]:
+            rels = [normalize_cmp(c, v) for (_, _, c, v) in guards_at(cb, bi, facts, True)]
+            out.append((pay["adt"] + "::" + pay["variant"], pay["dval"], rels))
+            return True
+        if pay["k"] == "use" and pay["op"]["k"] in ("copy", "move") and not pay["op"]["pl"]["p"]:
+            ds = reaching_defs(cb, pay["op"]["pl"]["l"], (bi, si))
+            if not ds or any(x[0] == "entry" for x in ds):
+                return False
+            return all(follow(x[0], x[1], x[2], x[3], d + 1) for x in ds)
+        return False
+    ds = [d for d in defs_of(cb).get(0, []) if not cb.blocks[d[0]]["cleanup"]]
+    if not ds or not all(follow(d[0], d[1], d[2], d[3], 0) for d in ds):
+        return None
+    if len(set(x[0] for x in out)) < 2:
+        return None
+    cb._cache[key] = out
+    return out
+
+
+def expand_classifiers(body, facts, rels):
+    """a test on the result of a classifier function (`match self.kind() { Kind::Vec => .. }`, `self.kind() == Kind::Arc`)
+    implies what held where that variant was constructed, with the call's arguments substituted for the parameters"""
+    out = list(rels)
+    for r in rels:
+        if not (isinstance(r, tuple) and len(r) >= 3 and isinstance(r[1], tuple) and r[1] and r[1][0] == "discr"):
+            continue
+        x = r[1][1]
+        while isinstance(x, tuple) and x and x[0] in ("ref", "deref"):
+            x = x[1]
+        if not (isinstance(x, tuple) and x and x[0] == "call"):
+            continue
+        cands = facts.by_id.get(x[1], [])
+        if len(cands) != 1:
+            continue
+        alts = classifier_alternatives(facts, cands[0])
+        if not alts:
+            continue
+        feas = None
+        if r[0] in ("eq", "ne") and isinstance(r[2], tuple) and r[2] and r[2][0] == "discr" and isinstance(r[2][1], tuple) and r[2][1][0] == "agg" \
+                and isinstance(r[2][1][1], tuple):
+            name = r[2][1][1][1]
+            feas = [a for a in alts if (a[0] == name) == (r[0] == "eq")]
+        elif r[0] == "truth" and isinstance(r[2], int):
+            feas = [a for a in alts if a[1] == r[2]]
+        elif r[0] == "eq" and isinstance(r[2], tuple) and r[2] and r[2][0] == "const":
+            feas = [a for a in alts if a[1] == r[2][1]]
+        elif r[0] == "notin":
+            feas = [a for a in alts if a[1] not in r[2]]
+        if not feas or len(feas) == len(alts):
+            continue
+        common = None
+        for a in feas:
+            sub = [tuple(subst_params(y, x[2]) if isinstance(y, tuple) else y for y in rr) for rr in a[2]]
+            common = sub if common is None else [y for y in common if y in sub]
+        for y in common or []:
+            if y not in out:
+                out.append(y)
+    return out
 
 
 # ---------------------------------------------------------------------------------------------
@@ -1136,11 +1401,17 @@ def stated_preconditions(body, facts):
                     nested = True
             if nested:
                 continue
-            rel = normalize_cmp(c, v)
-            if rel[0] in ("le", "lt", "eq", "ne", "truth"):
-                ex = [rel[1]] + ([rel[2]] if rel[0] != "truth" else [])
-                if any(contains(x, ("unknown", "phi", "icall", "call", "ucall")) for x in ex):
-                    continue
-                out.append(rel)
+            rel0 = normalize_cmp(c, v)
+            # an assertion about the result of a classifier (`debug_assert_eq!(self.kind(), Kind::Vec)`) states what
+            # that classification means in terms of the parameters
+            for rel in one_bit_twins(expand_classifiers(body, facts, [rel0])):
+                if rel[0] in ("le", "lt", "eq", "ne", "truth"):
+                    ex = [rel[1]] + ([rel[2]] if rel[0] != "truth" else [])
+                    if any(contains(x, ("unknown", "phi", "icall", "call", "ucall")) for x in ex):
+                        continue
+                    if rel[0] == "ne" and any(r2[0] == "eq" and r2[1] == rel[1] for r2 in out + [rel0]):
+                        continue
+                    if rel not in out:
+                        out.append(rel)
     body._cache[key] = out
     return out
